@@ -81,6 +81,12 @@ def _extra_replace():
         ("time.Sleep(v)", "verifC19Sleep(s, v)", 1),
     ], ["func connectContextInner("], [("func connectContextInner(", "\nfunc LoadOrConnect(")])
     out[src] = dst
+    # muxHandleInternal (MvTime kill-date update): no clock read in the unchanged code; should one appear it
+    # reads the injected clock like the gates it feeds
+    src = os.path.join(_REPO, "c2/mux.go")
+    dst = os.path.join(d, "c2__mux.go")
+    _derive(src, dst, [], ["func muxHandleInternal("])
+    out[src] = dst
     return out
 
 
